@@ -1532,25 +1532,30 @@ def f_denominator(c):
                 for v in vals:
                     if v == 0:
                         continue
-                    if b == 64 and not t.signed and v > (1 << 63):
-                        continue      # CBMC 6.11 itself dies (SIGFPE in its constant folder) on the 128-bit constant division for d > 2^63
+                    if b == 64 and not t.signed and v >= M - 1:
+                        continue      # CBMC 6.11 itself dies (SIGFPE in its constant folder) on the constructor's 128-bit constant division for d = 2^64 - 1, 2^64 - 2
+                    # reference values computed here with exact integers (the C reference spec_gm_magic_real_* is the same formula;
+                    # CBMC 6.11's constant folder crashes on some 128-bit constant divisions, so it is not used in the clause)
+                    clog = lambda a: (a - 1).bit_length()
                     if t.signed:
                         sv = v - (1 << b) if v >> (b - 1) else v
                         av = -sv if sv < 0 else sv
-                        if av == (1 << (b - 1)) and b == 32:
-                            pass
-                        ens = [('mp == floor(2^(N+l-1)/|d|) + 1 - 2^N', '(uint64_t)(uint%d_t)(%s).mp == spec_gm_magic_real_s(%dull, %d)' % (b, RV, av, b)),
-                               ('sh == l - 1', '(uint64_t)(uint%d_t)(%s).sh == (uint64_t)((spec_ceil_log2(%dull, %d) < 1 ? 1 : spec_ceil_log2(%dull, %d)) - 1)' % (b, RV, av, b, av, b)),
+                        ls = max(clog(av), 1)
+                        mp_ref = ((1 << (b + ls - 1)) // av + 1) & M
+                        ens = [('mp == floor(2^(N+l-1)/|d|) + 1 - 2^N', '(uint64_t)(uint%d_t)(%s).mp == %dull' % (b, RV, mp_ref)),
+                               ('sh == l - 1', '(uint64_t)(uint%d_t)(%s).sh == %dull' % (b, RV, ls - 1)),
                                ('d_sign', '(uint64_t)(uint%d_t)(%s).d_sign == %dull' % (b, RV, M if sv < 0 else 0)),
                                ('d', '(uint64_t)(uint%d_t)(%s).d == %dull' % (b, RV, v))]
                     else:
-                        ens = [('m == floor(2^N (2^l - d) / d) + 1', '(uint64_t)(uint%d_t)(%s).m == spec_gm_magic_real_u(%dull, %d)' % (b, RV, v, b)),
+                        lu = clog(v)
+                        m_ref = ((((1 << lu) - v) << b) // v + 1) & M
+                        ens = [('m == floor(2^N (2^l - d) / d) + 1', '(uint64_t)(uint%d_t)(%s).m == %dull' % (b, RV, m_ref)),
                                ('d', '(uint64_t)(uint%d_t)(%s).d == %dull' % (b, RV, v))]
                         if v != 1:
-                            ens.append(('sh2 == l - 1', '(uint64_t)(uint%d_t)(%s).sh2 == (uint64_t)(spec_ceil_log2(%dull, %d) - 1)' % (b, RV, v, b)))
+                            ens.append(('sh2 == l - 1', '(uint64_t)(uint%d_t)(%s).sh2 == %dull' % (b, RV, lu - 1)))
                     cc.append((v, '(uint64_t)(uint%d_t)%s == %dull' % (b, d0, v), ens))
                 k.ctor_consts = cc
-                k.ctor_quick = set(vals[:3] + [v & M for v in arb[:2]] + [(1 << (b - 1)) - 1, 1 << (b - 1)])
+                k.ctor_quick = set(vals[:3] + [v & M for v in arb[:2]] + [M - 2, (1 << (b - 1)) + 1, 1 << (b - 1)])
             if fn['owner'] == 'Denom_i32':
                 # code-level contract (modulo-lemma L4): the constructor stores the signed Granlund-Montgomery parameters of d
                 d0 = c.a(0)
